@@ -27,6 +27,11 @@ use uplc::{
     },
 };
 
+thread_local! { static LAST: std::cell::RefCell<String> = std::cell::RefCell::new(String::new()); }
+/// remember what is being processed, so that a panic of the real code OUTSIDE the guarded calls (e.g. while an input is
+/// pretty-printed) is still reported with the input that triggered it
+fn set_last(s: String) { LAST.with(|l| *l.borrow_mut() = s); }
+
 // ------------------------------------------------------------------ small deterministic PRNG
 struct Rng(u64);
 impl Rng {
@@ -738,6 +743,7 @@ fn mode_allbuiltins(seed: u64, limit: usize) -> Vec<serde_json::Value> {
             if fails.len() >= limit {
                 break;
             }
+            set_last(format!("allbuiltins: {f:?} tuple #{k}"));
             let v = VARIANTS[(k % 6) as usize];
             let mut t: Term<NamedDeBruijn> = Term::Builtin(f);
             for _ in 0..f.force_count() {
@@ -775,6 +781,8 @@ fn flat_terms() -> Vec<Term<DeBruijn>> {
         Constant::ProtoPair(Type::String, Type::ByteString, Rc::new(s("q")), Rc::new(Constant::ByteString(vec![1]))),
         Constant::ProtoList(Type::Pair(Rc::new(Type::ByteString), Rc::new(Type::Unit)), vec![Constant::ProtoPair(Type::ByteString, Type::Unit, Rc::new(Constant::ByteString(vec![])), Rc::new(Constant::Unit))]),
         Constant::ProtoList(Type::Unit, vec![Constant::Unit, Constant::Unit]),
+        Constant::ProtoList(Type::Integer, ints().into_iter().map(Constant::Integer).collect()),
+        Constant::ProtoPair(Type::Integer, Type::Integer, Rc::new(Constant::Integer(BigInt::from(1) << 64u32)), Rc::new(Constant::Integer(-(BigInt::from(1) << 100u32)))),
         Constant::ProtoList(Type::Bool, vec![]),
         Constant::ByteString((0..=255u8).cycle().take(600).collect()),
     ];
@@ -805,6 +813,7 @@ fn mode_flat(_seed: u64, limit: usize) -> Vec<serde_json::Value> {
             break;
         }
         n += 1;
+        set_last(format!("flat: program #{n}: {:?}", t).chars().take(600).collect());
         for version in [(1u64, 0u64, 0u64), (1, 1, 0)] {
             let prog = Program { version: (version.0 as usize, version.1 as usize, version.2 as usize), term: t.clone() };
             let input = serde_json::json!({"program": prog.to_pretty().split_whitespace().collect::<Vec<_>>().join(" ").chars().take(300).collect::<String>()});
@@ -825,6 +834,32 @@ fn mode_flat(_seed: u64, limit: usize) -> Vec<serde_json::Value> {
                 if back2.to_hex().map_err(|e| format!("{e}"))? != hexs {
                     return Err("hex -> program -> hex is not the identity".to_string());
                 }
+                // the other two binder forms round-trip as well
+                let nd: Program<NamedDeBruijn> = prog.clone().into();
+                let nb = nd.to_flat().map_err(|e| format!("{e}"))?;
+                let nd2 = Program::<NamedDeBruijn>::from_flat(&nb).map_err(|e| format!("decode (named de Bruijn form): {e}"))?;
+                if nd2 != nd { return Err("named-de-Bruijn form does not round-trip".to_string()); }
+                if let Ok(named) = Program::<Name>::try_from(prog.clone()) {
+                    let b = named.to_flat().map_err(|e| format!("{e}"))?;
+                    let n2 = Program::<Name>::from_flat(&b).map_err(|e| format!("decode (named form): {e}"))?;
+                    if n2 != named { return Err("named form does not round-trip".to_string()); }
+                }
+                // the published hash / address is blake2b-224(language tag ++ cbor(flat)) for the declared version
+                let cbor = prog.to_cbor().map_err(|e| format!("{e}"))?;
+                for (tag, lang) in [(1u8, Language::PlutusV1), (2, Language::PlutusV2), (3, Language::PlutusV3)] {
+                    use cryptoxide::{blake2b::Blake2b, digest::Digest};
+                    let mut want = [0u8; 28];
+                    let mut h = Blake2b::new(28);
+                    h.input(&[tag]);
+                    h.input(&cbor);
+                    h.result(&mut want);
+                    let addr = prog.address(pallas_addresses::Network::Testnet, pallas_addresses::ShelleyDelegationPart::Null, &lang);
+                    let got = match addr.payment() { pallas_addresses::ShelleyPaymentPart::Script(h) => h.to_vec(), _ => vec![] };
+                    if got != want.to_vec() { return Err(format!("address of the PlutusV{tag} script is not the ledger hash of its code")); }
+                    let sp = match tag { 1 => uplc::ast::SerializableProgram::PlutusV1Program(prog.clone()), 2 => uplc::ast::SerializableProgram::PlutusV2Program(prog.clone()), _ => uplc::ast::SerializableProgram::PlutusV3Program(prog.clone()) };
+                    let (hash, _) = sp.compiled_code_and_hash();
+                    if hash.to_vec() != want.to_vec() { return Err(format!("published hash of the PlutusV{tag} script is not the ledger hash of its code")); }
+                }
                 Ok::<(), String>(())
             }));
             match r {
@@ -835,7 +870,7 @@ fn mode_flat(_seed: u64, limit: usize) -> Vec<serde_json::Value> {
             }
         }
     }
-    println!("BOUNDS mode=flat {n} programs: every constant of the pool, nested list/pair types over string/bytestring/unit, a 600-byte string, every builtin, all closed terms of size<=4; versions 1.0.0 and 1.1.0; flat, hex(cbor)");
+    println!("BOUNDS mode=flat {n} programs: every constant of the pool, nested list/pair types over string/bytestring/unit, a 600-byte string, every builtin, all closed terms of size<=4; versions 1.0.0 and 1.1.0; flat and hex(cbor) in de Bruijn, named-de-Bruijn and named form; address and published hash = blake2b-224(version tag ++ cbor) for V1, V2, V3");
     fails
 }
 
@@ -859,6 +894,7 @@ fn mode_shrinker(seed: u64, limit: usize) -> Vec<serde_json::Value> {
         ("sum >= 100+k and first >= second", Box::new(|k| Box::new(move |c: &[u8]| { if c.len() < 2 { return Status::Invalid; } let s = c[0] as i64 + c[1] as i64; if s >= 100 + k as i64 && c[0] >= c[1] { Status::Keep(Data::list(vec![Data::integer((c[0] as i64).into()), Data::integer((c[1] as i64).into())])) } else { Status::Ignore } }))),
         ("sum >= 100+k and second >= first", Box::new(|k| Box::new(move |c: &[u8]| { if c.len() < 2 { return Status::Invalid; } let s = c[0] as i64 + c[1] as i64; if s >= 100 + k as i64 && c[1] >= c[0] { Status::Keep(Data::list(vec![Data::integer((c[0] as i64).into()), Data::integer((c[1] as i64).into())])) } else { Status::Ignore } }))),
         ("sum of 2nd and 4th >= 100+k and 2nd >= 4th", Box::new(|k| Box::new(move |c: &[u8]| { if c.len() < 4 { return Status::Invalid; } let s = c[1] as i64 + c[3] as i64; if s >= 100 + k as i64 && c[1] >= c[3] { Status::Keep(Data::integer(s.into())) } else { Status::Ignore } }))),
+        ("long vector: 66th choice below k/8 (sequences longer than 64 choices)", Box::new(|k| Box::new(move |c: &[u8]| { if c.len() < 70 { return Status::Invalid; } if c[65] < 1 + k / 8 { Status::Keep(Data::list(c[..70].iter().map(|x| Data::integer((*x as i64).into())).collect())) } else { Status::Ignore } }))),
         ("constant fuzzer, always falsified", Box::new(|_k| Box::new(move |_c: &[u8]| Status::Keep(Data::integer(0.into()))))),
         ("third choice odd and first >= k", Box::new(|k| Box::new(move |c: &[u8]| { if c.len() < 3 { return Status::Invalid; } if c[2] % 2 == 1 && c[0] >= k { Status::Keep(Data::integer((c[0] as i64 * 256 + c[2] as i64).into())) } else { Status::Ignore } }))),
     ];
@@ -869,7 +905,7 @@ fn mode_shrinker(seed: u64, limit: usize) -> Vec<serde_json::Value> {
         }
         let (name, mk) = &families[round % families.len()];
         let k = rng.below(200) as u8;
-        let len = 1 + rng.below(9) as usize;
+        let len = if name.starts_with("long vector") { 70 + rng.below(6) as usize } else { 1 + rng.below(9) as usize };
         let initial: Vec<u8> = (0..len).map(|_| rng.below(256) as u8).collect();
         let oracle = mk(k);
         let Status::Keep(v0) = oracle(&initial) else { continue };
@@ -898,7 +934,7 @@ fn mode_shrinker(seed: u64, limit: usize) -> Vec<serde_json::Value> {
             }
         }
     }
-    println!("BOUNDS mode=shrinker {n} (fuzzer family x threshold x initial failing choice sequence of length 1..9) cases over 9 synthetic deterministic fuzzers; seed {seed}");
+    println!("BOUNDS mode=shrinker {n} (fuzzer family x threshold x initial failing choice sequence of length 1..9) cases over 10 synthetic deterministic fuzzers (one with choice sequences of 70..75 bytes); seed {seed}");
     fails
 }
 
@@ -1021,6 +1057,83 @@ fn mode_interner(seed: u64, limit: usize) -> Vec<serde_json::Value> {
         if let Some(f) = check_interner(&t, sch, fu) { fails.push(f); }
     }
     println!("BOUNDS mode=interner exhaustive: open and closed terms of size<=5 x 4 naming schemes (all binders (x,0); distinct texts; same text distinct uniques; (x,k)) x free-variable uniques 0,1,2 ({n} cases); random: {m}; seed {seed}");
+    fails
+}
+
+
+// ------------------------------------------------------------------ mode: named (C11): name -> index conversions, with and without the parser's interner
+fn zero_uniques(t: &mut Term<Name>) {
+    use uplc::ast::Unique;
+    match t {
+        Term::Var(n) => { Rc::make_mut(n).unique = Unique::new(0); }
+        Term::Lambda { parameter_name, body } => { Rc::make_mut(parameter_name).unique = Unique::new(0); zero_uniques(Rc::make_mut(body)); }
+        Term::Apply { function, argument } => { zero_uniques(Rc::make_mut(function)); zero_uniques(Rc::make_mut(argument)); }
+        Term::Delay(b) | Term::Force(b) => zero_uniques(Rc::make_mut(b)),
+        Term::Constr { fields, .. } => { for f in fields { zero_uniques(f); } }
+        Term::Case { constr, branches } => { zero_uniques(Rc::make_mut(constr)); for b in branches { zero_uniques(b); } }
+        _ => {}
+    }
+}
+fn strip_nd(t: &Term<NamedDeBruijn>) -> T {
+    strip(&Term::<DeBruijn>::from(t.clone()))
+}
+fn check_named(t: &T, scheme: u8, via_parser_interner: bool) -> Option<serde_json::Value> {
+    if !expected_after_interning(t, scheme) { return None; }
+    let mut named = to_named(t, &mut vec![], &mut 0, scheme, 77);
+    if via_parser_interner {
+        if scheme != 0 && scheme != 1 { return None; }   // the parser's interner identifies names by text only
+        zero_uniques(&mut named);
+    }
+    let input = serde_json::json!({"term": to_real_db(t).to_pretty().split_whitespace().collect::<Vec<_>>().join(" "), "naming_scheme": scheme, "via_parser_interner": via_parser_interner});
+    let closed = well_scoped(t, 0);
+    let r = std::panic::catch_unwind(std::panic::AssertUnwindSafe(|| {
+        let mut prog = Program { version: (1, 1, 0), term: named };
+        if via_parser_interner { uplc::parser::interner::Interner::new().program(&mut prog); }
+        let a: Result<Program<NamedDeBruijn>, _> = prog.clone().try_into();
+        let b: Result<Program<DeBruijn>, _> = prog.try_into();
+        (a.ok().map(|p| strip_nd(&p.term)), b.ok().map(|p| strip(&p.term)))
+    }));
+    let want = strip(&to_real_db(t));
+    match r {
+        Err(_) => Some(fail("named", "conversion panicked", input, "a program or an error".into(), "panic".into())),
+        Ok((a, b)) => {
+            for (route, got) in [("named -> named-de-Bruijn", a), ("named -> de-Bruijn", b)] {
+                match got {
+                    None if closed => return Some(fail("named", "closed program rejected", input, "converted".into(), format!("error ({route})"))),
+                    Some(_) if !closed => return Some(fail("named", "program with a free variable accepted", input, "FreeUnique error".into(), format!("accepted ({route})"))),
+                    Some(g) if g != want => return Some(fail("named", "a variable refers to a different binder after conversion", input, show(&want), format!("{} ({route})", show(&g)))),
+                    _ => {}
+                }
+            }
+            None
+        }
+    }
+}
+fn mode_named(seed: u64, limit: usize) -> Vec<serde_json::Value> {
+    let mut fails = vec![];
+    let mut memo = std::collections::HashMap::new();
+    let mut n = 0;
+    'outer: for size in 1..=5 {
+        let ts = terms(size, 0, true, &mut memo);
+        for t in ts.iter() {
+            // (names are identified by their unique: distinct texts sharing one unique are only meaningful after interning)
+            for (scheme, via) in [(3u8, false), (2, false), (1, true), (0, true)] {
+                n += 1;
+                if let Some(f) = check_named(t, scheme, via) { fails.push(f); if fails.len() >= limit { break 'outer; } }
+            }
+        }
+    }
+    let mut rng = Rng(0xA24BAED4963EE407 ^ seed.wrapping_mul(0x9FB21C651E98DF25) | 1);
+    let mut m = 0;
+    while fails.len() < limit && m < 20_000 {
+        m += 1;
+        let size = 4 + rng.below(18) as usize;
+        let open = rng.below(2) == 0;
+        let t = random_term(&mut rng, size, 0, open);
+        let (scheme, via) = [(3u8, false), (2, false), (1, true), (0, true)][rng.below(4) as usize];
+        if let Some(f) = check_named(&t, scheme, via) { fails.push(f); }
+    }
+    println!("BOUNDS mode=named exhaustive: open and closed terms of size<=5 x 4 (naming scheme, with/without the parser's interner) ({n} cases); random: {m}; both name->index routes; seed {seed}");
     fails
 }
 
@@ -1378,6 +1491,7 @@ fn main() {
             "optimizer" => mode_optimizer(seed, limit),
             "optprobe" => { let src = std::fs::read_to_string("/tmp/optprobe.uplc").unwrap_or_default(); check_optimizer_text(&src).into_iter().collect() }
             "interner" => mode_interner(seed, limit),
+            "named" => mode_named(seed, limit),
             "datacodec" => mode_datacodec(seed, limit),
             "shrinker" => mode_shrinker(seed, limit),
             "allbuiltins" => mode_allbuiltins(seed, limit),
@@ -1394,7 +1508,15 @@ fn main() {
         "search" => {
             let mut any = false;
             for mode in args[2].split(',') {
-                let fails = run_mode(mode);
+                set_last(format!("{mode}: (start)"));
+                let fails = match std::panic::catch_unwind(std::panic::AssertUnwindSafe(|| run_mode(mode))) {
+                    Ok(f) => f,
+                    Err(p) => {
+                        let msg = p.downcast_ref::<String>().cloned().or_else(|| p.downcast_ref::<&str>().map(|s| s.to_string())).unwrap_or_default();
+                        let last = LAST.with(|l| l.borrow().clone());
+                        vec![fail(mode, "the real code panicked while the harness was building or printing this input", serde_json::json!({"last_input": last}), "no panic".into(), format!("panic: {msg}"))]
+                    }
+                };
                 println!("SUMMARY mode={mode} failures={}", fails.len());
                 any |= !fails.is_empty();
             }
